@@ -192,10 +192,10 @@ func runChanExec(execID int, sci any, e *Env) []rec.Ev {
 	x.ctxs = make([]context.Context, sc.NCtx+1)
 	x.cancels = make([]context.CancelFunc, sc.NCtx+1)
 	for i := 1; i <= sc.NCtx; i++ {
-		x.ctxs[i], x.cancels[i] = context.WithCancel(context.Background())
+		x.ctxs[i], x.cancels[i] = withCancelCause(context.Background())
 	}
 	var parent context.Context
-	parent, x.pcancel = context.WithCancel(context.Background())
+	parent, x.pcancel = withCancelCause(context.Background())
 	e.R.Add(rec.Ev{"ev": "reset", "exec": execID, "mode": e.Mode})
 	if e.Mode != "c" {
 		lastLen, lastChange := 0, time.Now()
